@@ -19,18 +19,23 @@ func init() {
 		}
 		return fns
 	}
+	addRule("C08", "firstcellguard", 0, func(c *Ctx, r string) { ruleFirstCellGuard(c, r, aligners(c, all...)) })
 	addRule("C08", "endcellplain", 2, func(c *Ctx, r string) { ruleEndCellPlain(c, r, aligners(c, "SW", "SWAffine")) })
 	addRule("C09", "tracelayer", 2, func(c *Ctx, r string) { ruleTraceLayer(c, r, aligners(c, "NWAffine", "SWAffine", "FittedAffine")) })
 	addRule("C09", "nilalpha", 6, func(c *Ctx, r string) { ruleNilAlpha(c, r, entries(c)) })
 	addRule("C09", "repeatlen", 2, ruleRepeatLen)
 	addRule("C09", "seqbounds", 12, func(c *Ctx, r string) { ruleSeqBounds(c, r, aligners(c, all...)) })
 
+	addRule("C03", "recorderr", 4, func(c *Ctx, r string) {
+		ruleRecOrErr(c, r, "io/featio/gff", "io/featio/bed", "io/seqio/fasta", "io/seqio/fastq")
+	})
 	for _, id := range []string{"C01", "C03"} {
 		addRule(id, "reusedview", 1, func(c *Ctx, r string) { ruleReusedView(c, r, "io/seqio/fasta", "io/seqio/fastq") })
 	}
 
 	addRule("C05", "strandflip", 2, func(c *Ctx, r string) { ruleStrandFlip(c, r, "seq/linear", "seq/alignment", "seq/multi") })
 
+	addRule("C06", "coordspace", 3, ruleCoordSpace)
 	addRule("C07", "carvecap", 0, func(c *Ctx, r string) { ruleCarveCap(c, r, "seq/alignment", "seq/multi") })
 	addRule("C07", "thresholdagree", 2, func(c *Ctx, r string) { ruleThresholdAgree(c, r, "seq", "seq/linear", "seq/alignment", "seq/multi") })
 
@@ -46,11 +51,12 @@ func init() {
 		"C19": "closeowner: the work queue that Map's unjoined producer goroutine sends on is closed by nothing else that Map reaches (close, Processor.Close on the processor built on it, deferred functions): otherwise a failing chunk makes the pending send hit a closed channel.",
 		"C11": "capkept: every slice of m.chunk that is stored back into the field, parked in the pool or handed to the writer starts at 0, so buffers in circulation keep capacity chunkSize (the spill and in-memory decisions compare with cap).",
 		"C12": "capkept: as C11.",
+		"C06": "coordspace: in Truncate, Stitch and Compose every integer expression gets an origin degree (1 for positions: Start(), End(), start/end arguments; 0 for lengths and subscripts; sums and differences add); the arguments of each min/max agree and the bounds handed to Slice and Make have degree 0.",
 		"C07": "carvecap: a column stored into an alignment that is cut out of a block shared with other columns is cut with a capacity limit. thresholdagree: every comparison of a letter's quality with a display threshold (Threshold field or QFilter parameter) treats Q == threshold as good, so the column view and the row view (through the QFilter) agree at the boundary.",
 		"C05": "strandflip: nothing a RevComp method that records a strand calls on the way writes a Strand field (Reverse sets None, after which the negation no longer is the opposite of the original strand).",
 		"C01": "reusedview: as C03.",
-		"C03": "reusedview: in a reader loop that truncates its line buffer to [:0] and refills it, no other byte slice carried to the next round is a view of that buffer (itself, a sub-slice, a bytes.Trim* result, an append onto it): the saved '@' label must be a copy, or the comparison with the '+' line compares the line with itself.",
-		"C08": "endcellplain: the Smith-Waterman fills record the best end cell (score, row and column taken together) under comparisons of the cell's score only.",
+		"C03": "recorderr: no return of Read or of a helper it calls hands back a nil record together with an error that is a nil constant or known nil on the paths into the return. reusedview: in a reader loop that truncates its line buffer to [:0] and refills it, no other byte slice carried to the next round is a view of that buffer (itself, a sub-slice, a bytes.Trim* result, an append onto it): the saved '@' label must be a copy, or the comparison with the '+' line compares the line with itself.",
+		"C08": "firstcellguard (as C09: a block boundary in the traceback is suppressed only at the single first cell; suppressing it by one coordinate merges two gap runs into one pair). endcellplain: the Smith-Waterman fills record the best end cell (score, row and column taken together) under comparisons of the cell's score only.",
 		"C09": "tracelayer: an affine traceback compares a cell of a variable layer with predecessor formulas only where the current layer has been tested (open finding on today's tree, see known_findings.txt). nilalpha: every method invoked on the result of an Alphabet() call in an aligner's entry point is dominated by a comparison that found that value non-nil. repeatlen: Letter.Repeat and QLetter.Repeat (the gap runs of Format) return the slice made with length count, never one grown by append. seqbounds: every subscript of the two sequence arguments of an aligner body, and every straight-line subscript of its table, whose position is a linear function of the two sequence lengths (inside a loop: in the first round, with the counters at their initial values) lies within bounds for all lengths, zero included, that pass the comparisons dominating it (decided exhaustively for lengths 0..5; the forms have unit coefficients). An aligner that reads rSeq[0], qSeq[len-1] or table[1] unconditionally panics on an empty sequence instead of returning pairs or an error.",
 	}
 	for id, s := range extra {
